@@ -7,7 +7,7 @@ import vlib
 import _cesium as C
 
 
-FORCED = [{"persist": 2, "filecap": 17}, {"persist": 2, "filecap": 40}, {"persist": 1, "filecap": 17}, {"persist": 0, "filecap": 0}]
+FORCED = [{"persist": 2, "filecap": 17}, {"persist": 2, "filecap": 5}, {"persist": 2, "filecap": 40}, {"persist": 1, "filecap": 17}, {"persist": 0, "filecap": 0}]
 
 
 def crash_enum(ctx, path, T, tag, conc=None, max_images=0, timeout=2400, forced=None):
@@ -95,6 +95,9 @@ def run(ctx):
     for plan in (1, 2, 4, 5):
         runs.append(("plan%d" % plan, dict(spec="GSpecSim", T=4, depth=14, deletes=True, plan=plan),
                      "num=%d" % (3 if not thorough else 40), None))
+    # a durable session followed by auto-commit sessions of several commits each
+    runs.append(("plan7", dict(spec="GSpecSim", T=4, depth=14, deletes=True, plan=7, maxlen=1, chansets='{{"I","D","V"}}'),
+                 "num=%d" % (3 if not thorough else 40), None))
     total_hist = total_images = torn = 0
     samples = []
     diverged = 0
